@@ -2,6 +2,12 @@
 from ..combine import combined_spec
 
 SPEC = combined_spec("C10", ['c10_theta', 'c10_hll', 'c10_cpc', 'c10_quant', 'c10_count', 'c10_misc'], "C10")
+from . import c10_inputs
+SPEC._parts += c10_inputs.parts()
+SPEC.claim_texts.append("[inputs] " + c10_inputs.CLAIM_TEXT)
+for _m in ("theta", "hll", "cpc", "bloom"):
+    if _m not in SPEC.tfamilies:
+        SPEC.tfamilies.append(_m)
 for _p in SPEC.parts():
     # C10 itself says "a reader written only from the documentation recovers the content the API reports": the model of these parts IS that
     # reader, run on bytes the implementation wrote, so an input on which the two disagree is an input on which the property fails
